@@ -7,7 +7,7 @@ _API = ["contracts.api_zone", "contracts.api_ac", "contracts.api_airtouch"]
 MODULES = {
     "C01": _SOCK,
     "C02": _SOCK + _API + _HB,
-    "C03": ["contracts.c06_crc"] + _CODECS + _FL,
+    "C03": ["contracts.c06_crc", "contracts.frame_roundtrip"] + _CODECS + _FL,
     "C04": _CODECS + _API + _FL,
     "C05": _CODECS + _FL,
     "C06": ["contracts.c06_crc"] + _SOCK,
